@@ -22,6 +22,7 @@
  *       -> pay n=<size> hex=<octets|-> out=<ids|-> oh=<hex;hex|-> ev=<a|l|F..|->
  *          out: per output section index if it is octet for octet section k, else 0;
  *          oh: the octets of the outputs (only when all are <= 48 octets)
+ *   mfd [<latency>]                               set_flow_def on the merger again, between two payloads
  *   splitter                                      new splitter
  *   addout <o> <n> <filterhex> <maskhex>          new output o (1..15) with a filter -> sink o
  *   delout <o>                                    release output o
@@ -380,6 +381,15 @@ static void do_line(char *line)
         uref_free(fd);
         int e2 = upipe_set_output(merger, sink_get(0));
         printf("merger %d %d\n", e1, e2);
+    } else if (!strcmp(c, "mfd")) {
+        /* the flow definition again (with a latency when asked): upstream re-sends it whenever one of
+         * its attributes changes or its output is set again */
+        assert(merger != NULL);
+        struct uref *fd = flow_def();
+        if (nt > 1 && atoi(tok[1])) uref_clock_set_latency(fd, atoi(tok[1]));
+        int e1 = upipe_set_flow_def(merger, fd);
+        uref_free(fd);
+        printf("mfd r=%d\n", e1);
     } else if (!strcmp(c, "pay") && nt >= 5) {
         size_t n = 0;
         if (strchr(tok[1], 's')) buf[n++] = (uint8_t)atoi(tok[2]);
